@@ -199,7 +199,7 @@ func cmdCheck(args []string) int {
 	} else {
 		for _, k := range cs.Order {
 			c := cs.Funcs[k]
-			if !c.Trusted && !c.Dyn {
+			if (!c.Trusted || cs.Body[k] != nil) && !c.Dyn {
 				keys = append(keys, k)
 			}
 		}
